@@ -32,6 +32,9 @@ SOURCES = [
     "SqlframeModel/Props/C09.lean",
     "SqlframeModel/Lemmas/C09.lean",
     "SqlframeModel/Lemmas/C09Lex.lean",
+    "SqlframeModel/Lemmas/C09Infer.lean",
+    "SqlframeModel/Impl/C09Infer.lean",
+    "SqlframeModel/Impl/C09Time.lean",
     "SqlframeModel/Impl/C09Lex.lean",
     "SqlframeModel/Impl/C09Values.lean",
     "SqlframeModel/Impl/C09Scope.lean",
@@ -159,16 +162,129 @@ def pykind(v: t.Any) -> str:
     raise TypeError(v)
 
 
+EPOCH = datetime.datetime(1970, 1, 1)
+US = datetime.timedelta(microseconds=1)
+ZONE: t.Dict[str, t.Any] = {"name": "UTC", "tz": UTC}  # the session zone of the case being run / judged
+ZONES = {"UTC": 0, "Etc/GMT-5": 300, "Etc/GMT+8": -480, "Etc/GMT-14": 840, "Etc/GMT+12": -720}  # fixed offsets (minutes)
+
+
+def use_zone(name: t.Optional[str]) -> None:
+    """the zone `spec_value` reads instants in"""
+    name = name or "UTC"
+    ZONE["name"], ZONE["tz"] = name, datetime.timezone(datetime.timedelta(minutes=ZONES[name]))
+
+
+def set_zone(name: t.Optional[str]) -> None:
+    """… and the engine session's TimeZone setting"""
+    name = name or "UTC"
+    if name != _S.get("zone", "UTC"):
+        S()["sess"]._conn.execute(f"SET TimeZone='{name}'")
+        _S["zone"] = name
+    use_zone(name)
+
+
+def ts_wall(v: datetime.datetime) -> int:
+    """the wall-clock reading of the datetime's own fields, in microseconds since 1970-01-01 00:00"""
+    return (v.replace(tzinfo=None) - EPOCH) // US
+
+
+def ts_off(v: datetime.datetime) -> t.Optional[int]:
+    return None if v.tzinfo is None else v.utcoffset() // US
+
+
+def wall_dt(w: int, off: t.Optional[int] = None) -> datetime.datetime:
+    d = EPOCH + w * US
+    return d if off is None else d.replace(tzinfo=datetime.timezone(off * US))
+
+
+def ts_keys(lv: t.Iterable[t.Any]) -> t.List[t.Tuple[int, t.Optional[int]]]:
+    """the distinct datetimes among the leaves, in a fixed order (request and answer of the driver are zipped)"""
+    return sorted({ts_key(x) for x in lv if isinstance(x, datetime.datetime)}, key=lambda k: (k[0], k[1] is not None, k[1] or 0))
+
+
+def ts_key(v: datetime.datetime) -> t.Tuple[int, t.Optional[int]]:
+    return (ts_wall(v), ts_off(v))
+
+
 def spec_value(v: t.Any) -> t.Any:
-    """what PySpark's collect() gives back for the value (session time zone UTC)"""
+    """what PySpark's collect() gives back for the value (local = session time zone)"""
     Row = S()["Row"]
     if isinstance(v, datetime.datetime) and v.tzinfo:
-        return v.astimezone(UTC).replace(tzinfo=None)
+        return v.astimezone(ZONE["tz"]).replace(tzinfo=None)
     if isinstance(v, Row):
         return Row(**{n: spec_value(x) for n, x in zip(v.__fields__, v)})
     if isinstance(v, list):
         return [spec_value(x) for x in v]
     return v
+
+
+def aware_in_zone(v: t.Any) -> t.Any:
+    return v.replace(tzinfo=ZONE["tz"]) if isinstance(v, datetime.datetime) and v.tzinfo is None else v
+
+
+def model_value(v: t.Any, ts: t.Dict[t.Tuple[int, t.Optional[int]], dict]) -> t.Any:
+    """what the MODEL says collect() gives back: datetimes by Lean `tsBack` (a `("lost",)` marker where the model has
+    no reading), everything else as it went in"""
+    Row = S()["Row"]
+    if isinstance(v, tuple) and not isinstance(v, Row):
+        return v  # a marker of the float model (`f32`)
+    if isinstance(v, datetime.datetime):
+        e = ts.get(ts_key(v))
+        if e is None:
+            return spec_value(v)
+        return wall_dt(int(e["back"])) if e.get("back") is not None else ("lost",)
+    if isinstance(v, Row):
+        return Row(**{n: model_value(x, ts) for n, x in zip(v.__fields__, v)})
+    if isinstance(v, list):
+        return [model_value(x, ts) for x in v]
+    return v
+
+
+def to_tree(v: t.Any) -> t.Any:
+    """the value as far as `get_default_data_type` looks at it (Lean `PyVal`)"""
+    Row = S()["Row"]
+    if isinstance(v, Row):
+        return {"r": [list(v.__fields__), [to_tree(x) for x in v]]}
+    if isinstance(v, (list, tuple)):
+        return {"q": [pykind(v), [to_tree(x) for x in v]]}
+    if isinstance(v, dict):
+        return {"d": [[to_tree(k) for k in v], [to_tree(x) for x in v.values()]]}
+    return {"s": [pykind(v), not v]}
+
+
+def project(v: t.Any, ty: t.Any) -> t.Any:
+    """what a CAST to the (model's) type keeps of a value: a struct is cast field by field, by name — fields the type
+    does not name are gone (engine semantics: assumed, validated by the stream)"""
+    Row = S()["Row"]
+    if v is None or ty is None:
+        return v
+    if "s" in ty and isinstance(v, Row):
+        have = dict(zip(v.__fields__, v))
+        return Row(**{n: project(have.get(n), t_) for n, t_ in zip(ty["s"][0], ty["s"][1])})
+    if "a" in ty and isinstance(v, list):
+        return [project(x, ty["a"]) for x in v]
+    return v
+
+
+def ty_text(ty: t.Any) -> str:
+    """a Lean `STy` (JSON) as the declared-type text of the generator (`_type_obj` reads it)"""
+    if "p" in ty:
+        return ty["p"]
+    if "a" in ty:
+        return f"array<{ty_text(ty['a'])}>"
+    if "m" in ty:
+        return f"map<{ty_text(ty['m'][0])},{ty_text(ty['m'][1])}>"
+    return "struct<" + ",".join(f"{n}:{ty_text(x)}" for n, x in zip(ty["s"][0], ty["s"][1])) + ">"
+
+
+def norm_type(text: t.Optional[str]) -> t.Optional[str]:
+    """a Spark type text as the engine-dialect type sqlglot makes of it (third party; both sides of the CAST comparison
+    go through it)"""
+    if text is None:
+        return None
+    from sqlglot import exp
+
+    return exp.DataType.build(text, dialect="spark").sql(dialect="duckdb")
 
 
 def same(a: t.Any, b: t.Any) -> bool:
@@ -178,6 +294,8 @@ def same(a: t.Any, b: t.Any) -> bool:
         return a is None
     if isinstance(b, tuple) and len(b) == 2 and b[0] == "f32":  # model prediction: rounded to 24 significand bits
         return isinstance(a, float) and abs(a - b[1]) <= abs(b[1]) * 2.0**-22
+    if isinstance(b, tuple) and len(b) == 2 and b[0] == "ulp":  # model prediction: the engine's inexact DECIMAL -> DOUBLE
+        return isinstance(a, float) and abs(a - b[1]) <= 4 * math.ulp(b[1])
     if isinstance(b, bool):
         return isinstance(a, bool) and a == b
     if isinstance(b, int):
@@ -213,30 +331,40 @@ def leaves(v: t.Any) -> t.Iterator[t.Any]:
         yield v
 
 
-def str_tokens(v: t.Any) -> t.List[str]:
+def str_tokens(v: t.Any, ts: t.Optional[t.Dict[t.Tuple[int, t.Optional[int]], dict]] = None, top: bool = True) -> t.List[str]:
     """the string-literal tokens the value's literal puts into the statement, in order.  For str this is the
-    Lean model's claim; for the opaque kinds (date/timestamp/bytes/NaN/inf) it is sqlglot's text, recorded
-    here so that the whole statement can be compared token by token"""
+    Lean model's claim; for a datetime the fields and offset are the Lean model's (`litTs`) and their spelling is
+    Python's `isoformat`; for the opaque kinds (date/bytes/NaN/inf) it is sqlglot's text, recorded here so that the
+    whole statement can be compared token by token"""
     Row = S()["Row"]
     if v is None or isinstance(v, (bool, int)):
         return []
     if isinstance(v, float):
-        return ["NaN"] if math.isnan(v) else ([str(v)] if math.isinf(v) else [])
+        if math.isinf(v):
+            # through `lit` (top level): the string str(v) when the model says so; through `_lit`: the model's texts
+            pr = probe()
+            if top and pr["inf_top_string"]:
+                return [str(v)]
+            return [pr["inf_texts"][0 if v > 0 else 1]] if pr["inf_texts"] else []
+        return ["NaN"] if math.isnan(v) else []
     if isinstance(v, str):
         return [v]
     if isinstance(v, bytes):
         return [v.hex()]
     if isinstance(v, datetime.datetime):
+        e = (ts or {}).get(ts_key(v))
+        if e is not None:
+            return [wall_dt(int(e["litWall"]), None if e["litOff"] is None else int(e["litOff"])).isoformat(sep=" ")]
         return [(v.astimezone(UTC) if v.tzinfo else v).isoformat(sep=" ")]
     if isinstance(v, datetime.date):
         return [v.strftime("%Y-%m-%d")]
     if isinstance(v, Row):
         out: t.List[str] = []
         for n, x in zip(v.__fields__, v):
-            out += [n] + str_tokens(x)
+            out += [n] + str_tokens(x, ts, False)
         return out
     if isinstance(v, (list, tuple)):
-        return [tok for x in v for tok in str_tokens(x)]
+        return [tok for x in v for tok in str_tokens(x, ts, False)]
     raise TypeError(v)
 
 
@@ -244,6 +372,44 @@ def decimal_typed(x: float) -> bool:
     """does DuckDB type the literal text `repr(x)` as DECIMAL (no exponent)?  lexical fact, outside the Lean model"""
     r = repr(x)
     return math.isfinite(x) and "e" not in r and "E" not in r
+
+
+_PROBE: t.Dict[str, t.Any] = {}
+
+
+def probe() -> t.Dict[str, t.Any]:
+    """what the Lean model says about the two floats that have no number literal (asked once per process): how an
+    infinity / a NaN is written by `lit` (top-level cells, `lit()`) and by `_lit` (nested cells, plain operands)"""
+    if not _PROBE:
+        req = {"case": 0, "strings": [], "sql": [], "ints": [], "kinds": ["floatInf", "floatNan"], "floats": [], "nans": [], "schema": None, "dict": None, "dicts": [], "zone": "0", "tss": [], "trees": [], "fdigits": []}
+        out = vlib.run_driver("C09", [req])[0]
+        ki, kn = out["kinds"]
+        _PROBE.update(inf_top_string=ki["lit"] == "string", inf_texts=ki.get("infTexts"), inf_nested_double=bool(ki.get("infNestedDouble")), inf_operand=ki["operand"], nan_operand=kn["operand"])
+    return _PROBE
+
+
+def float_unscaled(x: float) -> int:
+    """the digits of `repr(x)` read as an integer (what the engine's DECIMAL literal holds)"""
+    return int("".join(ch for ch in repr(x) if ch.isdigit())) if decimal_typed(x) else 0
+
+
+def float_leaves(v: t.Any) -> t.Iterator[float]:
+    for x in leaves(v):
+        if isinstance(x, float) and math.isfinite(x):
+            yield x
+
+
+def ulp_mark(v: t.Any, risky: t.Set[float]) -> t.Any:
+    """the model's prediction for a float cell outside H_floatDigits: the value give or take the engine's DECIMAL ->
+    DOUBLE conversion (observed: at most 2 units in the last place; accepted: 4)"""
+    Row = S()["Row"]
+    if isinstance(v, float) and v in risky:
+        return ("ulp", v)
+    if isinstance(v, Row):
+        return Row(**{n: ulp_mark(x, risky) for n, x in zip(v.__fields__, v)})
+    if isinstance(v, list):
+        return [ulp_mark(x, risky) for x in v]
+    return v
 
 
 def nested_model(v: t.Any, nan_is_null: bool, top: bool = True) -> t.Any:
@@ -264,11 +430,24 @@ def group_type(vals: t.Iterable[t.Any]) -> str:
     DOUBLE if any literal has an exponent, else the NaN literal's type if there is a NaN, else DECIMAL
     (engine typing rule: assumed; validated because the model's predictions must match on every case)"""
     fl = [x for x in vals if isinstance(x, float)]
-    if any(math.isfinite(x) and not decimal_typed(x) for x in fl):
+    if any((math.isfinite(x) and not decimal_typed(x)) or (math.isinf(x) and probe()["inf_nested_double"]) for x in fl):
         return "double"
     if any(math.isnan(x) for x in fl):
         return "nan"
     return "decimal" if fl else "none"
+
+
+def inf_column_fails(vals: t.List[t.Any]) -> bool:
+    """a VALUES column in which an infinity is the untyped string 'inf' (it went through `lit`) next to other float
+    literals: the engine (assumed rule, validated whenever it is predicted) gives up when the string is the first
+    non-NULL literal, and otherwise reads the string as the type the numeric literals unify to — which works for
+    DOUBLE (some literal has an exponent or is the NaN cast) and fails for DECIMAL"""
+    fl = [x for x in vals if isinstance(x, float)]
+    if not any(math.isinf(x) for x in fl) or all(math.isinf(x) for x in fl):
+        return False
+    if math.isinf(fl[0]):
+        return True
+    return not any(math.isnan(x) or (math.isfinite(x) and not decimal_typed(x)) for x in fl)
 
 
 def f32(x: t.Any) -> t.Any:
@@ -352,7 +531,7 @@ def gen_date(rng: random.Random) -> datetime.date:
 def gen_ts(rng: random.Random, tz: bool) -> datetime.datetime:
     if tz:
         d = datetime.datetime(rng.randint(1900, 2100), rng.randint(1, 12), rng.randint(1, 28), rng.randint(0, 23), rng.randint(0, 59), rng.randint(0, 59), rng.choice([0, 1, 999999, rng.randint(0, 999999)]))
-        off = datetime.timedelta(minutes=rng.choice([0, 60, -60, 330, -720, 840, 345, -570]))
+        off = datetime.timedelta(minutes=rng.choice([0, 60, -60, 330, -720, 840, 345, -570, 1, -1439]))
         return d.replace(tzinfo=datetime.timezone(off))
     d = datetime.datetime(rng.choice([1, 1000, 1969, 1970, 2024, 9999, rng.randint(1, 9999)]), rng.randint(1, 12), rng.randint(1, 28), rng.randint(0, 23), rng.randint(0, 59), rng.randint(0, 59), rng.choice([0, 1, 999999, rng.randint(0, 999999)]))
     return d
@@ -507,7 +686,7 @@ def _str_leaves_enc(row: t.List[t.Any]) -> t.Iterator[t.Any]:
 def gen_lit(rng: random.Random, use: str, oos: t.Optional[str] = None) -> dict:
     kinds = SCALAR_KINDS + (["list_int", "list_str", "list_list_int", "row", "list_float", "list_row", "list_tstz", "list_float_nan", "row_f"] if use == "lit_select" else [])
     if use == "isin_where":
-        kinds = ["int", "bool", "float", "str", "date", "ts"]
+        kinds = ["int", "bool", "float", "str", "date", "ts", "tstz"]
     kind = rng.choice(kinds)
     if oos == "H_noNul":
         kind = "str"
@@ -533,6 +712,215 @@ def gen_lit(rng: random.Random, use: str, oos: t.Optional[str] = None) -> dict:
         c["w"] = enc(w)
     return c
 
+
+
+# ------------------------------------------------------------------------------------------------
+# value trees: every position the first-row inference looks at, with the values a class test cannot tell from
+# "nothing" (0, 0.0, -0.0, False, '', b'') standing there
+# ------------------------------------------------------------------------------------------------
+# a type tree: ("p", name) | ("a", elem) | ("s", [(field, type), ...])
+
+TREE_PRIMS = ["bigint", "double", "boolean", "string", "binary", "date", "timestamp"]
+FALSY = {"bigint": [0], "double": [0.0, -0.0], "boolean": [False], "string": [""], "binary": [b""]}
+FIELDS = ["a", "b", "c", "n", "s", "w", "ks", "x1"]
+
+
+def tree_decl(ty: tuple) -> str:
+    if ty[0] == "p":
+        return ty[1]
+    if ty[0] == "a":
+        return f"array<{tree_decl(ty[1])}>"
+    return "struct<" + ",".join(f"{n}:{tree_decl(x)}" for n, x in ty[1]) + ">"
+
+
+def gen_tree(rng: random.Random, depth: int) -> tuple:
+    r = rng.random()
+    if depth <= 0 or r < 0.35:
+        return ("p", rng.choice(TREE_PRIMS))
+    if r < 0.65:
+        return ("a", gen_tree(rng, depth - 1))
+    return ("s", [(n, gen_tree(rng, depth - 1)) for n in rng.sample(FIELDS, rng.randint(1, 3))])
+
+
+def tree_val(rng: random.Random, ty: tuple, mode: str) -> t.Any:
+    """mode `falsy`: every scalar the inference looks at is the falsy value of its type (where the type has one);
+    `first`: a first-row value (typed at every inference position); `later`: anything, None and empty lists included"""
+    Row = S()["Row"]
+    if mode == "later" and rng.random() < 0.12:
+        return None
+    if ty[0] == "p":
+        if mode == "falsy" and ty[1] in FALSY:
+            return rng.choice(FALSY[ty[1]])
+        if mode == "later" and ty[1] in FALSY and rng.random() < 0.3:
+            return rng.choice(FALSY[ty[1]])
+        k = {"bigint": "int", "double": "float", "boolean": "bool", "string": "str", "binary": "bytes", "date": "date", "timestamp": rng.choice(["ts", "tstz"])}[ty[1]]
+        v = gen_val(rng, k)
+        while isinstance(v, float) and not math.isfinite(v):
+            v = gen_val(rng, k)
+        if isinstance(v, str) and len(v) > 40:
+            v = v[:40]
+        return v
+    if ty[0] == "a":
+        if mode == "later" and rng.random() < 0.2:
+            return []
+        return [tree_val(rng, ty[1], mode)] + [tree_val(rng, ty[1], "later") for _ in range(rng.randint(0, 2))]
+    return Row(**{n: tree_val(rng, x, mode) for n, x in ty[1]})
+
+
+def gen_tree_cdf(rng: random.Random, falsy: bool, tys: t.Optional[t.List[tuple]] = None, zone: t.Optional[str] = None) -> dict:
+    tys = tys or [gen_tree(rng, rng.randint(0, 3)) for _ in range(rng.randint(1, 3))]
+    names = sorted(rng.sample(NAMES, len(tys)))
+    container = rng.choice(["tuple", "list", "dict", "Row"])
+    form = rng.choice(["none", "names", "names", "dict", "struct"])
+    cols = [{"name": n, "kind": "tree", "decl": tree_decl(ty)} for n, ty in zip(names, tys)]
+    first = [enc(tree_val(rng, ty, "falsy" if falsy else "first")) for ty in tys]
+    others = [[enc(tree_val(rng, ty, "later")) for ty in tys] for _ in range(rng.randint(0, 2))]
+    c: t.Dict[str, t.Any] = {"use": "cdf", "container": container, "form": form, "cols": cols, "rows": [first] + others}
+    if zone and zone != "UTC":
+        c["zone"] = zone
+    return c
+
+
+def tree_sweep(rng: random.Random) -> t.List[dict]:
+    """every falsy scalar at every kind of inference position: a cell, the first element of a list, a Row field (alone,
+    first, last), the first element of a list inside a Row, a Row inside a list, two levels of lists"""
+    out = []
+    for prim in FALSY:
+        p = ("p", prim)
+        other = ("p", "string" if prim != "string" else "bigint")
+        shapes = [
+            [p], [("a", p)], [("s", [("n", p)])], [("s", [("n", p), ("s", other)])], [("s", [("s", other), ("n", p)])],
+            [("s", [("w", p), ("ks", ("a", p))])], [("a", ("s", [("n", p), ("s", other)]))], [("a", ("a", p))], [p, other, ("a", p)],
+        ]
+        for tys in shapes:
+            c = gen_tree_cdf(rng, True, tys)
+            c["form"] = rng.choice(["none", "names"])
+            if c["form"] == "none" and c["container"] == "dict":
+                c["container"] = "Row"
+            out.append(c)
+    return out
+
+
+def gen_first_row_untyped(rng: random.Random) -> dict:
+    """outside H_firstRowTyped: the first row holds a None / an empty list at a position the inference looks at (a Row
+    field, the first element of a list, a whole cell); a later row shows the type.  Only int / str / bool leaves, so
+    that what comes back does not depend on how the engine types a literal it is not told the type of"""
+    Row = S()["Row"]
+    prims = [("p", "bigint"), ("p", "string"), ("p", "boolean")]
+    p, q = rng.choice(prims), rng.choice(prims)
+    shape = rng.choice(["field", "field", "elem", "cell", "empty", "field_in_list"])
+    if shape == "field":
+        ty: tuple = ("s", [("n", p), ("s", q)])
+        full = tree_val(rng, ty, "first")
+        first = Row(n=None, s=full[1]) if rng.random() < 0.7 else Row(n=full[0], s=None)
+    elif shape == "elem":
+        ty = ("a", p)
+        full = tree_val(rng, ty, "first")
+        first = [None] + full
+    elif shape == "cell":
+        ty = p
+        first = None
+    elif shape == "empty":
+        ty = ("a", p)
+        first = []
+    else:
+        ty = ("a", ("s", [("n", p), ("s", q)]))
+        full = tree_val(rng, ("s", [("n", p), ("s", q)]), "first")
+        first = [Row(n=None, s=full[1]), full]
+    tys = [ty, ("p", "bigint")]
+    names = sorted(rng.sample(NAMES, 2))
+    cols = [{"name": n, "kind": "tree", "decl": tree_decl(x)} for n, x in zip(names, tys)]
+    rows = [[enc(first), enc(1)], [enc(tree_val(rng, ty, "first")), enc(2)]]
+    return {"use": "cdf", "container": rng.choice(["tuple", "list", "Row"]), "form": "names", "cols": cols, "rows": rows}
+
+
+def inf_cases(rng: random.Random) -> t.List[dict]:
+    """an infinity at every place a float can stand: alone in a column, next to other floats in a column (through `lit`:
+    outside H_infLiteral), nested in a list / Row of a cell, in a list / Row given to lit(), as lit() in select / where,
+    as a plain operand of every comparison entry point"""
+    Row = S()["Row"]
+    out: t.List[dict] = []
+    pinf, ninf = math.inf, -math.inf
+    f = lambda: gen_val(rng, "list_float")[0]  # noqa: E731  a finite float
+    fcol = {"name": "f", "kind": "float", "decl": "double"}
+    for rows in ([[pinf], [ninf], [None]], [[pinf], [f()]], [[f()], [ninf]], [[1e300], [pinf]], [[ninf], [math.nan]]):
+        out.append({"use": "cdf", "container": rng.choice(["tuple", "list", "Row", "dict"]), "form": rng.choice(["names", "dict", "struct", "ddl"]), "cols": [dict(fcol)], "rows": [[enc(x) for x in r] for r in rows]})
+    cols = [{"name": "l", "kind": "tree", "decl": "array<double>"}, {"name": "r", "kind": "tree", "decl": "struct<x:double,y:string>"}, {"name": "ll", "kind": "tree", "decl": "array<array<double>>"}]
+    for form in ("names", rng.choice(["dict", "struct"])):
+        rows = [[enc([rng.choice([pinf, ninf]), f()]), enc(Row(x=rng.choice([pinf, ninf]), y="q")), enc([[f(), pinf], [ninf]])],
+                [enc([f(), ninf, None]), enc(Row(x=f(), y="")), enc([[pinf]])]]
+        out.append({"use": "cdf", "container": rng.choice(["tuple", "Row"]), "form": form, "cols": [dict(x) for x in cols], "rows": rows})
+    for v in ([pinf, f()], [f(), ninf], [ninf], Row(x=pinf, y="s"), [pinf, math.nan, f()]):
+        out.append({"use": "lit_select", "kind": "row_f" if isinstance(v, Row) else "list_float", "v": enc(v)})
+    for v in (pinf, ninf):
+        for use in ("lit_select", "lit_where", "operand_where", "isin_where"):
+            c = {"use": use, "kind": "floatinf", "v": enc(v)}
+            if use in ("lit_where", "isin_where"):
+                c["w"] = enc(-v)
+            out.append(c)
+    for op in ("eq", "ne", "gt", "ge", "lt", "le", "between", "between_same", "isin", "isin_list", "eqNullSafe", "req"):  # Column operators: the operand goes through `_lit` alone
+        a, b = f(), f()
+        while same(a, b) or float_unscaled(a) > 2**53 or float_unscaled(b) > 2**53:
+            a, b = f(), rng.uniform(-1000, 1000)
+        x, y = rng.choice([(pinf, ninf), (ninf, pinf), (pinf, a), (b, ninf)])
+        out.append({"use": "entry", "op": op, "kind": "float", "v": enc(a), "w": enc(b), "x": enc(x), "y": enc(y)})
+    return out
+
+
+def gen_many_digits(rng: random.Random) -> dict:
+    """outside H_floatDigits: float cells (top level, in a list, in a Row) whose `repr` has no exponent and more digits
+    than a double holds exactly as an integer"""
+    Row = S()["Row"]
+
+    def one() -> float:
+        while True:
+            x = rng.choice([rng.uniform(-1, 1), rng.uniform(-1e-3, 1e-3), rng.uniform(-100, 100)])
+            if float_unscaled(x) > 2**53:
+                return x
+
+    cols = [{"name": "f", "kind": "tree", "decl": "double"}, {"name": "l", "kind": "tree", "decl": "array<double>"}, {"name": "r", "kind": "tree", "decl": "struct<x:double,y:string>"}]
+    rows = [[enc(one()), enc([one(), 1.5]), enc(Row(x=one(), y="q"))] for _ in range(rng.randint(1, 3))]
+    return {"use": "cdf", "container": rng.choice(["tuple", "list", "Row", "dict"]), "form": rng.choice(["names", "dict", "struct"]), "cols": cols, "rows": rows}
+
+
+TZ_OFFSETS = [0, 60, -60, 300, 330, 345, -210, -570, 765, 840, -720, 1, -1, 1439, -1439]  # minutes
+
+
+def gen_aware(rng: random.Random) -> datetime.datetime:
+    """an aware datetime whose offset matters: any offset up to +-23:59, often one that moves the date, the month or
+    the year when the instant is read in UTC"""
+    off = datetime.timedelta(minutes=rng.choice(TZ_OFFSETS) if rng.random() < 0.8 else rng.randint(-1439, 1439))
+    r = rng.random()
+    if r < 0.3:
+        d = datetime.datetime(rng.randint(1900, 2100), rng.choice([1, 12]), rng.choice([1, 31]), rng.choice([0, 23]), rng.choice([0, 59]), rng.randint(0, 59), rng.choice([0, 999999]))
+    elif r < 0.4:
+        d = datetime.datetime(rng.choice([2000, 2024, 1900, 2100]), rng.choice([2, 3]), rng.choice([28, 1]), rng.choice([0, 23]), rng.randint(0, 59), 0)
+    else:
+        d = gen_ts(rng, False).replace(year=rng.randint(1900, 2100))
+    return d.replace(tzinfo=datetime.timezone(off))
+
+
+def gen_zone_cases(rng: random.Random, zone: str) -> t.List[dict]:
+    """the same uses under another session time zone (configuration): cells, nested cells, lit() in select / where,
+    plain operands"""
+    out: t.List[dict] = []
+    v, w = gen_aware(rng), gen_aware(rng)
+    n = gen_ts(rng, False)
+    Row = S()["Row"]
+    cols = [{"name": "a", "kind": "tstz", "decl": "timestamp"}, {"name": "b", "kind": "ts", "decl": "timestamp"}, {"name": "c", "kind": "tree", "decl": "array<timestamp>"},
+            {"name": "d", "kind": "tree", "decl": "struct<t:timestamp,u:timestamp>"}]
+    rows = [[enc(v), enc(n), enc([v, n, None]), enc(Row(t=w, u=n))], [enc(w), enc(None), enc([w]), enc(Row(t=None, u=n))]]
+    out.append({"use": "cdf", "container": rng.choice(["tuple", "Row"]), "form": rng.choice(["names", "dict", "struct"]), "cols": cols, "rows": rows})
+    for use in ("lit_select", "lit_where", "operand_where", "isin_where"):
+        x = gen_aware(rng) if rng.random() < 0.7 else gen_ts(rng, False)
+        c = {"use": use, "kind": "tstz" if x.tzinfo else "ts", "v": enc(x)}
+        if use in ("lit_where", "isin_where"):
+            c["w"] = enc(x + datetime.timedelta(hours=rng.choice([1, -1, 5, 24])))
+        out.append(c)
+    for c in out:
+        if zone != "UTC":
+            c["zone"] = zone
+    return out
 
 
 # ------------------------------------------------------------------------------------------------
@@ -607,7 +995,7 @@ def entry_ops() -> t.Dict[str, t.Tuple[str, t.Callable, t.Callable, bool]]:
     return ENTRY_OPS
 
 
-ENTRY_KINDS = ["str", "str", "str", "int", "float", "date", "ts", "bool"]
+ENTRY_KINDS = ["str", "str", "str", "int", "float", "date", "ts", "tstz", "bool"]
 
 
 def gen_entry_str(rng: random.Random, nul_ok: bool = False) -> str:
@@ -619,6 +1007,30 @@ def gen_entry_str(rng: random.Random, nul_ok: bool = False) -> str:
     return gen_str(rng, nul_ok)
 
 
+def gen_entry_aware(rng: random.Random, op: str, zone: t.Optional[str] = None) -> dict:
+    """aware datetimes at an entry point that takes a plain value: the literal is the same instant written with another
+    offset than the stored value, and (frame `naive`) the frame may hold the instants as NAIVE timestamps, the way data
+    read from a table does — so that a literal that moves the instant cannot cancel against a cell moved the same way"""
+    zone = zone or "UTC"
+    use_zone(zone)
+    a, b = gen_aware(rng), gen_aware(rng)
+    while a == b:
+        b = gen_aware(rng)
+
+    def respell(d: datetime.datetime) -> datetime.datetime:
+        return d.astimezone(datetime.timezone(datetime.timedelta(minutes=rng.choice(TZ_OFFSETS))))
+
+    c: t.Dict[str, t.Any] = {"use": "entry", "op": op, "kind": "tstz", "x": enc(respell(a)), "y": enc(respell(b))}
+    if rng.random() < 0.5:
+        c.update(frame="naive", v=enc(spec_value(a)), w=enc(spec_value(b)))
+    else:
+        c.update(v=enc(a), w=enc(b))
+    if zone != "UTC":
+        c["zone"] = zone
+    use_zone(None)
+    return c
+
+
 def gen_entry(rng: random.Random, op: t.Optional[str] = None, oos: t.Optional[str] = None) -> t.Optional[dict]:
     ops = entry_ops()
     op = op or rng.choice(sorted(ops))
@@ -626,6 +1038,8 @@ def gen_entry(rng: random.Random, op: t.Optional[str] = None, oos: t.Optional[st
     kind = "str" if need in ("str", "strlike", "str1") or oos == "H_noNul" else rng.choice(ENTRY_KINDS)
     if need == "fill" and kind not in ("str", "int", "float"):
         kind = "str"
+    if kind == "tstz":
+        return gen_entry_aware(rng, op)
     for _ in range(30):
         if kind == "str":
             v, w = gen_entry_str(rng, oos == "H_noNul"), gen_entry_str(rng)
@@ -633,8 +1047,8 @@ def gen_entry(rng: random.Random, op: t.Optional[str] = None, oos: t.Optional[st
                 v += "\x00"
         else:
             v, w = gen_val(rng, kind), gen_val(rng, kind)
-        if kind == "float" and (math.isnan(v) or math.isnan(w)):
-            continue
+        if kind == "float" and (math.isnan(v) or math.isnan(w) or float_unscaled(v) > 2**53 or float_unscaled(w) > 2**53):
+            continue  # what the frame's cells come back as is H_floatDigits' business (createDataFrame stream)
         if kind == "str" and len(v) > 300:
             v = v[:300]
         if kind == "str" and len(w) > 300:
@@ -678,13 +1092,13 @@ def run_entry(c: dict, out: dict) -> None:
     out["stage"] = "done"
 
 
-def bag_same(a: t.List[tuple], b: t.List[tuple]) -> bool:
+def bag_same(a: t.List[tuple], b: t.List[tuple], conv: t.Callable[[t.Any], t.Any] = spec_value) -> bool:
     if len(a) != len(b):
         return False
     rest = list(b)
     for ra in a:
         for i, rb in enumerate(rest):
-            if len(ra) == len(rb) and all(same(p, spec_value(q)) for p, q in zip(ra, rb)):
+            if len(ra) == len(rb) and all(same(p, conv(q)) for p, q in zip(ra, rb)):
                 del rest[i]
                 break
         else:
@@ -799,17 +1213,30 @@ def lit_class(e: t.Any) -> str:
     return type(e).__name__
 
 
+def select_casts(df: t.Any) -> t.List[t.Optional[str]]:
+    """per select item of the DataFrame's statement: the type it is CAST to (engine dialect text), None = no CAST"""
+    from sqlglot import exp
+
+    out: t.List[t.Optional[str]] = []
+    for e in df.expression.selects:
+        u = e.unalias()
+        out.append(u.to.sql(dialect="duckdb") if isinstance(u, exp.Cast) else None)
+    return out
+
+
 def run_impl(c: dict) -> dict:
     st = S()
     sess, F, Column = st["sess"], st["F"], st["Column"]
     st["log"].clear()
     out: t.Dict[str, t.Any] = {}
     try:
+        set_zone(c.get("zone"))
         if c["use"] == "cdf":
             data, schema = build_cdf_args(c)
             out["stage"] = "createDataFrame"
             df = sess.createDataFrame(data, schema)
             out["names"] = list(df.columns)
+            out["casts"] = select_casts(df)
             out["stage"] = "collect"
             rows = df.collect()
             out["sql"] = st["log"][-1]
@@ -864,6 +1291,15 @@ def case_values(c: dict) -> t.List[t.Any]:
     return [dec(c["v"])] + ([dec(c["w"])] if "w" in c else []) + ([dec(c["x"]), dec(c["y"])] if c.get("use") == "entry" else [])
 
 
+def cell_floats(c: dict, vals: t.List[t.Any]) -> t.List[float]:
+    """the finite floats that are written into a VALUES cell (at any depth) and CAST to DOUBLE by the engine"""
+    if c["use"] == "cdf":
+        return [x for v in vals for x in float_leaves(v)]
+    if c["use"] == "entry":
+        return [x for v in vals[:2] for x in float_leaves(v)]
+    return []
+
+
 def lean_req(i: int, c: dict, impl: dict) -> dict:
     vals = case_values(c)
     lv = [x for v in vals for x in leaves(v)]
@@ -882,6 +1318,10 @@ def lean_req(i: int, c: dict, impl: dict) -> dict:
         "schema": None,
         "dict": None,
         "dicts": [],
+        "zone": str(ZONES[c.get("zone") or "UTC"] * 60_000_000),
+        "tss": [{"wall": str(w), "off": None if o is None else str(o)} for w, o in ts_keys(lv)],
+        "trees": [],
+        "fdigits": [[decimal_typed(x), str(float_unscaled(x))] for x in cell_floats(c, vals)],
     }
     try:
         return _lean_req_fill(req, c, vals)
@@ -910,6 +1350,7 @@ def _lean_req_fill(req: dict, c: dict, vals: t.List[t.Any]) -> dict:
         req["dicts"] = [{"cols": names, "keys": [names[j] for j in sh["order"]]} for sh in row_shapes(c) if sh["cont"] == "dict" and sh["order"] != list(range(len(names)))]
         rows_in = effective_rows(c)
         req["nans"] = [group_type(r[j] for r in rows_in) == "nan" for j, col in enumerate(c["cols"]) if col["kind"] == "float"]
+        req["trees"] = [to_tree(v) for v in first]
     else:
         v = vals[0]
         req["kinds"] = [pykind(v)]
@@ -928,6 +1369,7 @@ KIND_CLASS = {"boolean": "BooleanType", "bigint": "LongType", "double": "DoubleT
 def judge(c: dict, impl: dict, L: dict) -> dict:
     """compare implementation, model (Lean outputs + the harness's literal-text table) and specification"""
     st = S()
+    use_zone(c.get("zone"))
     vals = case_values(c)
     lv = [x for v in vals for x in leaves(v)]
     strings = [x for x in lv if isinstance(x, str)]
@@ -936,6 +1378,19 @@ def judge(c: dict, impl: dict, L: dict) -> dict:
         scope.append("H_noNul")
     model_notes: t.List[str] = []  # disagreements implementation vs model
     spec_notes: t.List[str] = []  # disagreements implementation vs specification
+    cf = cell_floats(c, vals)
+    risky = {x for x, ok in zip(cf, L.get("fdigits", [])) if not ok}
+    if risky:
+        scope.append("H_floatDigits")
+    # timestamps: the Lean model's literal (fields, offset, CAST type) and what comes back, per distinct datetime
+    tsm: t.Dict[t.Tuple[int, t.Optional[int]], dict] = dict(zip(ts_keys(lv), L.get("tss", [])))
+    for k, e in tsm.items():
+        if "err" in e:
+            raise RuntimeError(f"driver rejected a timestamp: {e}")
+        if e["back"] is not None and e["back"] != e["spec"]:
+            model_notes.append(f"Lean: tsBack {k} = {e['back']}, PySpark's reading {e['spec']} (the datetime branch of _lit moves the instant)")
+        if wall_dt(int(e["spec"])) != spec_value(wall_dt(*k)):
+            model_notes.append(f"Lean specTsBack {k} = {e['spec']} differs from Python's own arithmetic {spec_value(wall_dt(*k))}")
     sql = impl.get("sql") or ""
     lexed = bool(sql) and len(sql) <= MAX_SQL
     sql_strs = ["".join(chr(x) for x in s) for s in L["sqlStrs"]]
@@ -961,7 +1416,15 @@ def judge(c: dict, impl: dict, L: dict) -> dict:
         spec_names = sch["spec"]
         rows_in = effective_rows(c)
         nan_is_null = L["kinds"][-1]["operand"] == "null"
-        # model rows: dict rows may be laid out positionally; nested NaNs go through `_lit`
+        inferred = c["form"] in ("none", "names")
+        trees = L.get("trees", []) if inferred else []
+        for tr in trees:
+            if "err" in tr:
+                raise RuntimeError(f"driver rejected a value tree: {tr}")
+        if any(not tr["ok"] for tr in trees):
+            scope.append("H_firstRowTyped")
+        # model rows: dict rows may be laid out positionally; nested NaNs go through `_lit`; a column is CAST to the
+        # type inferred from its first-row value (a struct type that leaves a field out removes it from every row)
         m_rows = [[nested_model(x, nan_is_null) for x in r] for r in rows_in]
         values_len_err = False
         dit = iter(L["dicts"])
@@ -974,7 +1437,11 @@ def judge(c: dict, impl: dict, L: dict) -> dict:
                     values_len_err = True  # positional layout of a dict with a missing key: a shorter VALUES tuple
         if any(not x["ok"] for x in L["nans"]):
             scope.append("H_nanWidth")
-        exp_toks = [tok for r in m_rows for v in r for tok in str_tokens(v)]
+        exp_toks = [tok for r in m_rows for v in r for tok in str_tokens(v, tsm)]
+        if trees and len(trees) == len(names) and not values_len_err:
+            m_rows = [[project(x, trees[j]["ty"]) if trees[j]["cast"] else x for j, x in enumerate(r)] for r in m_rows]
+        if risky:
+            m_rows = [[ulp_mark(x, risky) for x in r] for r in m_rows]
         fcols = [j for j, col in enumerate(c["cols"]) if col["kind"] == "float"]
         for j, nn in zip(fcols, L["nans"]):
             if values_len_err:
@@ -983,6 +1450,11 @@ def judge(c: dict, impl: dict, L: dict) -> dict:
                 for r in m_rows:
                     r[j] = f32(r[j])
         parser_err = "H_noNul" in scope
+        # `lit(inf)` is an untyped string (Lean `litOf`): a VALUES column that also holds another float literal cannot be
+        # typed by the engine (VARCHAR with DECIMAL / DOUBLE: assumed engine rule, validated whenever it is predicted)
+        mix_err = probe()["inf_top_string"] and any(inf_column_fails([r[j] for r in rows_in]) for j in range(len(names)))
+        if mix_err:
+            scope.append("H_infLiteral")
         if values_len_err and m_names is not None and not parser_err:
             if "err" not in impl:
                 model_notes.append("model: a dict row with a missing key laid out positionally gives VALUES tuples of different lengths; implementation: no error")
@@ -995,6 +1467,9 @@ def judge(c: dict, impl: dict, L: dict) -> dict:
                 model_notes.append(f"model: the engine's scanner ends inside a literal (NUL); implementation: {impl.get('err', 'no error')}")
             if lexed and not L["unterminated"]:
                 model_notes.append("Lean lex of the executed statement does not report an unterminated token")
+        elif mix_err:
+            if "err" not in impl or not any(w in impl["err"] for w in ("Cannot combine types", "Could not convert string")) or impl.get("stage") != "collect":
+                model_notes.append(f"model: the engine cannot type a column of the string 'inf' and float literals; implementation: {impl.get('err', 'no error')} at {impl.get('stage')}")
         else:
             if "err" in impl:
                 model_notes.append(f"model: no error; implementation: {impl['err']} at {impl.get('stage')}")
@@ -1011,22 +1486,38 @@ def judge(c: dict, impl: dict, L: dict) -> dict:
                 for s, q in zip(strings, L["quoted"]):
                     if lexed and "".join(chr(x) for x in q) not in sql:
                         model_notes.append(f"Lean quote of {show(s)} does not occur in the executed statement")
-                if len(impl["rows"]) != len(m_rows) or not all(len(a) == len(b) and all(same(x, y if isinstance(y, tuple) else spec_value(y)) for x, y in zip(a, b)) for a, b in zip(impl["rows"], m_rows)):
+                if len(impl["rows"]) != len(m_rows) or not all(len(a) == len(b) and all(same(x, model_value(y, tsm)) for x, y in zip(a, b)) for a, b in zip(impl["rows"], m_rows)):
                     model_notes.append("values differ from the model's prediction")
-                # inferred / declared types
+                # inferred / declared types: the CAST of every select item (Lean `inferTy` on the first-row value for the
+                # inferred forms, the declaration as it stands for the typed forms) and what df.schema reports
+                casts = impl.get("casts") or []
                 for j, (col, k) in enumerate(zip(c["cols"], L["kinds"])):
                     rep = impl["schema"][j][1] if impl.get("schema") and j < len(impl["schema"]) else None
-                    if c["form"] in ("none", "names"):
-                        want_obj = _type_obj(col["decl"])
-                        if k["infer"] is None:
-                            model_notes.append(f"model infers no type for kind {k['kind']}")
-                        elif KIND_CLASS.get(k["infer"]) != type(want_obj).__name__:
-                            model_notes.append(f"Lean inferType({k['kind']}) = {k['infer']}, the kind table expects {type(want_obj).__name__}")
-                        elif rep is not None and rep != want_obj.simpleString():
-                            model_notes.append(f"column {col['name']}: schema type {rep}, inferred {k['infer']} expects {want_obj.simpleString()}")
-                    if not k["cast"]:
-                        model_notes.append("model: typed column without CAST")
-                if lexed and "CAST(" not in sql:
+                    got_cast = casts[j] if j < len(casts) else None
+                    if inferred:
+                        tr = trees[j] if j < len(trees) else None
+                        if tr is not None:
+                            want_cast = norm_type(tr["text"]) if tr["cast"] else None
+                            if got_cast != want_cast:
+                                model_notes.append(f"column {col['name']}: CAST to {got_cast} in the statement, Lean inferTy gives {tr['text']} ({want_cast})")
+                        if tr is None or tr["ok"]:
+                            want_obj = _type_obj(col["decl"])
+                            if k["infer"] is None:
+                                model_notes.append(f"model infers no type for kind {k['kind']}")
+                            elif KIND_CLASS.get(k["infer"]) != type(want_obj).__name__:
+                                model_notes.append(f"Lean inferType({k['kind']}) = {k['infer']}, the kind table expects {type(want_obj).__name__}")
+                            elif rep is not None and rep != want_obj.simpleString():
+                                model_notes.append(f"column {col['name']}: schema type {rep}, inferred {k['infer']} expects {want_obj.simpleString()}")
+                            if tr is not None and tr["spec"] is not None and _type_obj(ty_text(tr["spec"])) != want_obj:
+                                model_notes.append(f"column {col['name']}: Lean specTy {ty_text(tr['spec'])} differs from the generator's declared type {col['decl']}")
+                            if not k["cast"]:
+                                model_notes.append("model: typed column without CAST")
+                    else:
+                        if got_cast != norm_type(col["decl"]):
+                            model_notes.append(f"column {col['name']}: CAST to {got_cast}, declared {col['decl']} ({norm_type(col['decl'])})")
+                        if not k["cast"]:
+                            model_notes.append("model: typed column without CAST")
+                if lexed and "CAST(" not in sql and not (inferred and trees and all(tr["text"] is None for tr in trees)):
                     model_notes.append("no CAST in the executed statement")
         # specification
         if "err" in impl:
@@ -1052,7 +1543,10 @@ def judge(c: dict, impl: dict, L: dict) -> dict:
                         spec_notes.append(f"schema type of {n}: {ty}, declared/inferred {want}")
     elif c["use"] == "entry":
         v, w, x, y = dec(c["v"]), dec(c["w"]), dec(c["x"]), dec(c["y"])
-        want = entry_ops()[c["op"]][2](v, w, x, y)
+        # a frame stored as NAIVE timestamps (the session zone's reading) compared with AWARE literals: the value
+        # semantics compares instants
+        fv, fw = (aware_in_zone(v), aware_in_zone(w)) if c.get("frame") == "naive" else (v, w)
+        want = entry_ops()[c["op"]][2](fv, fw, x, y)
         if "H_noNul" in scope:
             if "err" not in impl or "unterminated" not in impl["err"]:
                 model_notes.append(f"model: scanner ends inside a literal; implementation: {impl.get('err', 'no error')}")
@@ -1061,8 +1555,9 @@ def judge(c: dict, impl: dict, L: dict) -> dict:
             model_notes.append(f"model: no error; implementation {impl['err']} at {impl.get('stage')}")
             spec_notes.append(f"raises {impl['err']}")
         else:
+            if not bag_same(impl["rows"], want, lambda q: model_value(ulp_mark(q, risky), tsm)):
+                model_notes.append(f"rows {show(impl['rows'])} vs the value semantics {show(want)} with the model's reading of every datetime")
             if not bag_same(impl["rows"], want):
-                model_notes.append(f"rows {show(impl['rows'])} vs the value semantics {show(want)}")
                 spec_notes.append(f"{c['op']} with the plain value {show(x)} gives {show(impl['rows'])}; treating it as a literal gives {show(want)}")
             if "rows_lit" in impl and not bag_same(impl["rows"], impl["rows_lit"]):
                 spec_notes.append(f"{c['op']}({show(x)}) gives {show(impl['rows'])} but {c['op']}(lit({show(x)})) gives {show(impl['rows_lit'])}")
@@ -1077,8 +1572,10 @@ def judge(c: dict, impl: dict, L: dict) -> dict:
     else:
         v = vals[0]
         k = L["kinds"][0]
-        if not k["hinf"] and c["use"] in ("lit_select", "operand_where", "isin_where"):
-            scope.append("H_infLiteral")
+        if not k["hinf"] and c["use"] == "lit_select":
+            scope.append("H_infLiteral")  # the value went through `lit`
+        if not k.get("hinfop", True) and c["use"] in ("operand_where", "isin_where"):
+            scope.append("H_infOperand")  # the value went through `_lit` alone
         if any(not f["ok"] for f in L["floats"]) and c["use"] == "lit_select":
             scope.append("H_listFloat")
         if any(not x["ok"] for x in L["nans"]) and c["use"] == "lit_select":
@@ -1101,7 +1598,7 @@ def judge(c: dict, impl: dict, L: dict) -> dict:
                 if L["nans"] and L["nans"][0]["bits"] == 24 and group_type(v) == "nan":
                     m_val = [f32(x) for x in v]
             else:
-                m_val = spec_value(nested_model(v, L["kinds"][-1]["operand"] == "null"))
+                m_val = model_value(nested_model(v, L["kinds"][-1]["operand"] == "null"), tsm)
             if "err" in impl:
                 model_notes.append(f"model: no error; implementation {impl['err']}")
                 spec_notes.append(f"raises {impl['err']}")
@@ -1110,7 +1607,7 @@ def judge(c: dict, impl: dict, L: dict) -> dict:
                     model_notes.append(f"value {show(impl['value'])} vs model {show(m_val)}")
                 if not same(impl["value"], spec_value(v)):
                     spec_notes.append(f"select(lit(v)) gives {show(impl['value'])} for {show(v)}")
-                exp_toks = str_tokens(v)
+                exp_toks = str_tokens(v, tsm)
                 if lexed and sql_strs != exp_toks:
                     model_notes.append(f"string tokens {show(sql_strs)} vs expected {show(exp_toks)}")
         else:
@@ -1140,8 +1637,16 @@ def evaluate(cases: t.List[dict]) -> t.List[dict]:
     for c, impl, L in zip(cases, impls, outs):
         if "err" in L:
             raise RuntimeError(f"driver rejected a case: {L}")
-        j = judge(c, impl, L)
+        try:
+            j = judge(c, impl, L)
+        except Exception as e:  # noqa: an implementation result of a shape the judge does not expect: never a silent pass
+            try:
+                sn = spec_notes_only(c, impl)
+            except Exception as e2:  # noqa
+                sn = [f"the result cannot be compared with the values put in: {type(e2).__name__}: {str(e2)[:120]}"]
+            j = {"scope": [], "model_notes": [f"the judge could not evaluate the case: {type(e).__name__}: {str(e)[:160]}"], "spec_notes": sn}
         res.append({"case": c, "impl": impl, "lean": L, **j})
+    set_zone(None)
     return res
 
 
@@ -1228,6 +1733,37 @@ def valid(c: dict) -> bool:
     return all(x["t"] != "none" for x in c["rows"][0])
 
 
+def _drop_field(decl: str, name: str) -> t.Optional[str]:
+    """the declared type `struct<…>` without one top-level field (None when the text is not a plain struct)"""
+    try:
+        T = S()["T"]
+        obj = _type_obj(decl)
+        if not isinstance(obj, T.StructType):
+            return None
+        keep = [f for f in obj if f.name != name]
+        if not keep or len(keep) == len(list(obj)):
+            return None
+        return "struct<" + ",".join(f"{f.name}:{_decl_of(f.dataType)}" for f in keep) + ">"
+    except Exception:  # noqa
+        return None
+
+
+def _decl_of(obj: t.Any) -> str:
+    T = S()["T"]
+    if isinstance(obj, T.ArrayType):
+        return f"array<{_decl_of(obj.elementType)}>"
+    if isinstance(obj, T.StructType):
+        return "struct<" + ",".join(f"{f.name}:{_decl_of(f.dataType)}" for f in obj) + ">"
+    return {"LongType": "bigint", "IntegerType": "int", "BooleanType": "boolean", "DoubleType": "double", "StringType": "string", "BinaryType": "binary", "DateType": "date", "TimestampType": "timestamp"}[type(obj).__name__]
+
+
+def note_kinds(notes: t.List[str]) -> t.Set[str]:
+    """what kind of difference a note reports, without the values (a shrunk case must still fail the same way)"""
+    import re
+
+    return {" ".join(re.sub(r"\d+", "", n.split(":")[0]).split()[:3]) for n in notes}
+
+
 def shrink(c: dict, failing: t.Callable[[dict], bool], budget: int = 60) -> dict:
     best = c
     improved = True
@@ -1250,6 +1786,23 @@ def shrink(c: dict, failing: t.Callable[[dict], bool], budget: int = 60) -> dict
                     cands.append(cand)
             for ri, row in enumerate(best["rows"]):
                 for ci, x in enumerate(row):
+                    if x["t"] == "list" and len(x["v"]) > 1:
+                        for k in range(len(x["v"]) - 1, 0, -1):
+                            rows = [list(r) for r in best["rows"]]
+                            rows[ri][ci] = {"t": "list", "v": x["v"][:k] + x["v"][k + 1 :]}
+                            cands.append(dict(best, rows=rows))
+                    if x["t"] == "row" and len(x["v"]) > 1 and best["form"] in ("none", "names") and all(r[ci]["t"] in ("row", "none") for r in best["rows"]):
+                        for k in range(len(x["v"])):
+                            name = x["v"][k][0]
+                            rows = [list(r) for r in best["rows"]]
+                            for r in rows:
+                                if r[ci]["t"] == "row":
+                                    r[ci] = {"t": "row", "v": [f for f in r[ci]["v"] if f[0] != name]}
+                            if all(r[ci]["t"] == "none" or r[ci]["v"] for r in rows):
+                                cols = [dict(col) for col in best["cols"]]
+                                cols[ci]["decl"] = _drop_field(cols[ci]["decl"], name)
+                                if cols[ci]["decl"]:
+                                    cands.append(dict(best, rows=rows, cols=cols))
                     if x["t"] == "str" and len(x["v"]) > 1:
                         for piece in (x["v"][: len(x["v"]) // 2], x["v"][len(x["v"]) // 2 :], x["v"][1:], x["v"][:-1]):
                             rows = [list(r) for r in best["rows"]]
@@ -1282,7 +1835,7 @@ def shrink(c: dict, failing: t.Callable[[dict], bool], budget: int = 60) -> dict
 # the check
 # ------------------------------------------------------------------------------------------------
 
-OOS = ["H_noNul", "H_infLiteral", "H_listFloat", "H_nanWidth", "H_dictOrder", "H_trimmedNames", "H_namesAreFields", "H_ddlSimple"]
+OOS = ["H_noNul", "H_infLiteral", "H_listFloat", "H_nanWidth", "H_dictOrder", "H_trimmedNames", "H_namesAreFields", "H_ddlSimple", "H_firstRowTyped", "H_floatDigits"]
 
 
 def known_entries() -> t.Dict[str, dict]:
@@ -1328,6 +1881,50 @@ def cases_for(ctx: Ctx) -> t.List[dict]:
         c = gen_lit(rng, rng.choice(["lit_select", "lit_select", "lit_where", "operand_where", "isin_where"]))
         c["origin"] = "random"
         cases.append(c)
+    # value trees: every falsy scalar at every inference position; random type trees with falsy / ordinary first rows
+    for c in tree_sweep(rng):
+        c["origin"] = "tree-sweep"
+        cases.append(c)
+    for i in range(400 if ctx.thorough else 40):
+        c = gen_tree_cdf(rng, falsy=i % 2 == 0)
+        c["origin"] = "tree-random"
+        cases.append(c)
+    # the falsy scalars as literals: lit() in select / where, plain operands, isin
+    for fv in [0, 0.0, -0.0, False, "", b""]:
+        for use in ("lit_select", "lit_where", "operand_where", "isin_where"):
+            if use == "isin_where" and isinstance(fv, bytes):
+                continue
+            c = {"use": use, "kind": {int: "int", float: "float", bool: "bool", str: "str", bytes: "bytes"}[type(fv)], "v": enc(fv), "origin": "falsy-literal"}
+            if use in ("lit_where", "isin_where"):
+                c["w"] = enc({int: 1, float: 1.5, bool: True, str: "x", bytes: b"x"}[type(fv)])
+            cases.append(c)
+    # infinities: through `lit` (top-level cells, lit()) and through `_lit` alone (nested cells, plain operands)
+    for _ in range(3 if ctx.thorough else 1):
+        for c in inf_cases(rng):
+            c["origin"] = "infinity"
+            cases.append(c)
+    # aware datetimes: offsets that move the date / month / year, at every use; other session time zones
+    for _ in range(40 if ctx.thorough else 6):
+        for use in ("lit_select", "lit_where", "operand_where", "isin_where"):
+            x = gen_aware(rng)
+            c = {"use": use, "kind": "tstz", "v": enc(x), "origin": "aware"}
+            if use in ("lit_where", "isin_where"):
+                c["w"] = enc(x + datetime.timedelta(minutes=rng.choice([1, -1, 60, 300, 1440])))
+            cases.append(c)
+    for op in sorted(entry_ops()):
+        if entry_ops()[op][0] == "any":
+            for _ in range(3 if ctx.thorough else 1):
+                c = gen_entry_aware(rng, op, rng.choice(list(ZONES)) if rng.random() < 0.3 else None)
+                c["origin"] = "entry-aware"
+                cases.append(c)
+    for zone in ZONES:
+        for _ in range(6 if ctx.thorough else 1):
+            for c in gen_zone_cases(rng, zone):
+                c["origin"] = "zone:" + zone
+                cases.append(c)
+        c = gen_tree_cdf(rng, falsy=False, zone=zone)
+        c["origin"] = "zone:" + zone
+        cases.append(c)
     # literal lifting: every entry point that takes a plain value, with strings that look like SQL
     for op in sorted(entry_ops()):
         for _ in range(4 if ctx.thorough else 2):
@@ -1348,7 +1945,11 @@ def cases_for(ctx: Ctx) -> t.List[dict]:
     # inputs outside the scope hypotheses (each must be classified, never silently skipped)
     for h in OOS:
         for _ in range(12 if ctx.thorough else 3):
-            if h in ("H_infLiteral", "H_listFloat"):
+            if h == "H_firstRowTyped":
+                c = gen_first_row_untyped(rng)
+            elif h == "H_floatDigits":
+                c = gen_many_digits(rng)
+            elif h in ("H_infLiteral", "H_listFloat"):
                 c = gen_lit(rng, rng.choice(["lit_select", "operand_where"]) if h == "H_infLiteral" else "lit_select", oos=h)
             elif h == "H_noNul" and rng.random() < 0.5:
                 c = gen_lit(rng, rng.choice(["lit_select", "lit_where", "operand_where"]), oos=h)
@@ -1413,9 +2014,19 @@ def same_loose(a: t.Any, b: t.Any) -> bool:
 
 def spec_notes_only(c: dict, impl: dict) -> t.List[str]:
     notes: t.List[str] = []
+    use_zone(c.get("zone"))
     vals = case_values(c)
     if "err" in impl:
         return [f"raises {impl['err']}"]
+    if c["use"] == "entry":
+        v, w, x, y = dec(c["v"]), dec(c["w"]), dec(c["x"]), dec(c["y"])
+        fv, fw = (aware_in_zone(v), aware_in_zone(w)) if c.get("frame") == "naive" else (v, w)
+        want = entry_ops()[c["op"]][2](fv, fw, x, y)
+        if not bag_same(impl["rows"], want):
+            notes.append(f"{c['op']} with the plain value {show(x)} gives {show(impl['rows'])}; treating it as a literal gives {show(want)}")
+        if "rows_lit" in impl and not bag_same(impl["rows"], impl["rows_lit"]):
+            notes.append(f"{c['op']}({show(x)}) gives {show(impl['rows'])} but {c['op']}(lit({show(x)})) gives {show(impl['rows_lit'])}")
+        return notes
     if c["use"] == "cdf":
         names = [x["name"] for x in c["cols"]]
         want = names if not (c["form"] == "none" and c["container"] in ("tuple", "list")) else [f"_{i + 1}" for i in range(len(names))]
@@ -1429,6 +2040,14 @@ def spec_notes_only(c: dict, impl: dict) -> t.List[str]:
                 for ci, (x, y) in enumerate(zip(a, b)):
                     if not same_loose(x, spec_value(y)):
                         notes.append(f"row {ri} column {ci}: {show(x)} back, {show(y)} in")
+        if impl.get("fields") is not None and impl["fields"] != want:
+            notes.append(f"Row fields {impl['fields']} != {want}")
+        if impl.get("schema") is not None:
+            if [n for n, _ in impl["schema"]] != want:
+                notes.append(f"schema names {[n for n, _ in impl['schema']]} != {want}")
+            for (n, ty), col in zip(impl["schema"], c["cols"]):
+                if ty != _type_obj(col["decl"]).simpleString():
+                    notes.append(f"schema type of {n}: {ty}, declared/inferred {_type_obj(col['decl']).simpleString()}")
     elif c["use"] == "lit_select":
         if not same_loose(impl["value"], spec_value(vals[0])):
             notes.append(f"select(lit(v)) gives {show(impl['value'])} for {show(vals[0])}")
@@ -1443,12 +2062,15 @@ def case_size(c: dict) -> int:
     return len(json.dumps(c))
 
 
-def spec_only_stream(ctx: Ctx) -> None:
-    cases = [c for c in cases_for(ctx) if not c.get("origin", "").startswith("out-of-scope") and not py_risky(c)]
+def spec_only_stream(ctx: Ctx, cases: t.Optional[t.List[dict]] = None) -> None:
+    cases = [c for c in (cases or cases_for(ctx)) if not c.get("origin", "").startswith("out-of-scope") and not py_risky(c)]
     bad = []
     for c in cases:
         impl = run_impl(c)
-        notes = spec_notes_only(c, impl)
+        try:
+            notes = spec_notes_only(c, impl)
+        except Exception as e:  # noqa: a result of a shape the comparison does not expect is a difference, not a crash
+            notes = [f"the result cannot be compared with the values put in: {type(e).__name__}: {str(e)[:120]}"]
         if notes:
             bad.append((c, impl, notes))
     bad.sort(key=lambda x: case_size(x[0]))
@@ -1475,15 +2097,23 @@ def run(ctx: Ctx) -> None:
     idx = vlib.props_index()[ID]
     vlib.prove(ctx, MODULES, GEN, idx["theorems"], SOURCES)
     known = known_entries()
-    if any("untranslatable" in b or "bad import" in b for b in ctx.broken):
-        # the source left the translator's sub-language: there is no current model (the compiled driver would be
-        # the one of an older tree).  Fall back to the specification side alone: implementation vs the values put
-        # in, on the conservative subset of the stream that no named hypothesis can touch.
-        spec_only_stream(ctx)
-        return
-
     cases = cases_for(ctx)
-    res = evaluate(cases)
+    stale = any("untranslatable" in b or "bad import" in b for b in ctx.broken)
+    try:
+        # when the source has left the translator's sub-language, the model that runs is the last committed
+        # translation (lean/GenBaseline/Values.lean): it still says what the UNCHANGED tree does, and the stream still
+        # compares the implementation with the specification on every case, with every observable
+        res = evaluate(cases)
+    except Exception as e:  # noqa
+        if not ctx.broken:
+            raise
+        # no runnable model at all (the driver does not load): the specification side alone, implementation vs the
+        # values put in, on the conservative subset of the stream that no named hypothesis can touch
+        log(f"the model cannot be run ({type(e).__name__}: {str(e)[:300]}); specification-side stream only")
+        spec_only_stream(ctx, cases)
+        return
+    if stale:
+        log("Gen.Values is the baseline translation: model mismatches below describe the difference to the unchanged tree")
 
     # DuckDB's own reading of every Lean-quoted NUL-free string
     seen: t.Dict[str, str] = {}
@@ -1528,9 +2158,19 @@ def run(ctx: Ctx) -> None:
         ctx.broken.append(f"correspondence stream (implementation vs Lean model): {len(model_mismatch)} of {len(res)} cases differ, e.g. {show_case(r0['case'])}: {r0['model_notes'][0]}")
 
     reported = 0
-    for r in new_viol[:3]:
+    # in-scope failures first, small ones first, and different kinds of difference rather than three of a kind
+    new_viol.sort(key=lambda r: (bool(r["scope"]), case_size(r["case"])))
+    picked: t.List[dict] = []
+    for r in new_viol:
+        if len(picked) < 3 and not any(note_kinds(r["spec_notes"]) == note_kinds(q["spec_notes"]) and r["case"]["use"] == q["case"]["use"] for q in picked):
+            picked.append(r)
+    picked += [r for r in new_viol if r not in picked][: 3 - len(picked)]
+    for r in picked:
+        kinds0, scope0 = note_kinds(r["spec_notes"]), r["scope"]
+
         def failing(rr: dict) -> bool:
-            return bool(rr["spec_notes"]) and not (rr["scope"] and all(h in known for h in rr["scope"]) and not rr["model_notes"])
+            # the same kind of difference under the same hypotheses: a shrunk case must not drift to another failure
+            return bool(note_kinds(rr["spec_notes"]) & kinds0) and rr["scope"] == scope0 and not (rr["scope"] and all(h in known for h in rr["scope"]) and not rr["model_notes"])
 
         c = shrink(r["case"], failing)
         rr = evaluate([c])[0]
@@ -1566,9 +2206,11 @@ def run(ctx: Ctx) -> None:
     matrix: t.Dict[str, int] = {}
     nontriv = set()
     nstr = 0
+    origins: t.Dict[str, int] = {}
     for r in res:
         c = r["case"]
         hist[c["use"]] = hist.get(c["use"], 0) + 1
+        origins[c.get("origin", "?").split(":")[0]] = origins.get(c.get("origin", "?").split(":")[0], 0) + 1
         if c["use"] == "cdf":
             key = f"{c['container']}x{c['form']}"
             matrix[key] = matrix.get(key, 0) + 1
@@ -1586,6 +2228,10 @@ def run(ctx: Ctx) -> None:
             "distinct_nontrivial": len(nontriv),
             "rule": "corpus; every adversarial string as a cell / lit() in select / lit() in where; every row container x schema form; random typed columns "
             "(per-type generators, adversarial strings, 64-bit boundaries, NaN/inf, date/timestamp extremes, bytes, nested lists/Rows); random lit()/operand literals; "
+            "value trees: every falsy scalar (0, 0.0, -0.0, False, '', b'') at every inference position (cell, first list element, Row field alone/first/last, list in Row, "
+            "Row in list, list of lists) and random type trees to depth 3 with falsy / ordinary first rows and None / empty lists in later rows; the falsy scalars as literals; "
+            "aware datetimes with offsets up to +-23:59 (moving the date / month / year) as cells, nested cells, lit(), operands, isin, and at every entry point that takes a "
+            "plain value (literal respelled with another offset; frame stored as naive timestamps); the same under four other fixed-offset session time zones; "
             "a few inputs outside each named hypothesis. non-trivial = distinct case that ran without error and contains a string with quote/backslash/comment/control/"
             "non-ASCII characters or > 100 chars, an integer beyond 32 bits, a non-finite or extreme float, bytes/date/timestamp, or a nested value",
             "traces_validated_against_impl": len(res) - len(model_mismatch),
@@ -1594,20 +2240,26 @@ def run(ctx: Ctx) -> None:
             "string_literals_lexed_by_lean": nstr,
             "distinct_strings_read_back_by_duckdb": len(seen),
             "use_histogram": hist,
+            "origin_histogram": origins,
+            "zones": sorted({r["case"].get("zone", "UTC") for r in res}),
             "kind_histogram": kinds_hist,
             "container_x_form": matrix,
             "samples": samples,
             "adjacent_observations": adjacent_observations(),
-            "not_decided": "the lexical forms of float / date / timestamp / bytes literals are sqlglot's and the engine's; the Lean model treats them as opaque tokens "
-            "of the right kind — such values are only run through the real code here",
+            "not_decided": "the lexical forms of float / date / bytes literals and the calendar arithmetic of timestamps are sqlglot's, Python's and the engine's; the Lean model "
+            "treats them as opaque tokens of the right kind (a timestamp: wall-clock microseconds + offset) — such values are only run through the real code here",
         }
     )
     ctx.assumptions += [
         "DuckDB's scanner treats '…' literals as Impl/C09Lex.lean says ('' is the only escape, backslash is ordinary, NUL ends the input) — validated on every run: DuckDB reads each Lean-quoted literal back",
         "sqlglot's DuckDB generator writes string literals as Lean `quote` and integers as str(int) — validated on every run against the executed statement",
         "sqlglot exp.convert's literal per Python type (Lean `convertClass`) and Python's class hierarchy (`PyKind.classes`) — validated on every run against the literal AST",
-        "the DuckDB session time zone is UTC (aware datetimes come back as naive UTC, which is what PySpark gives with spark.sql.session.timeZone=UTC)",
-        "dict rows are compared with sorted keys only; the first row of an untyped column is non-null (first-row type inference); -0.0 == 0.0 counts as equal",
+        "the DuckDB session time zone is UTC or a fixed-offset zone set per case; an aware datetime comes back as the naive reading of its instant in that zone (what PySpark gives "
+        "when the session / local zone is that zone); engine: CAST('…+hh:mm' AS TIMESTAMPTZ) is the instant, a TIMESTAMPTZ is handed back in the session zone (Impl/C09Time.lean: assumed, "
+        "validated on every datetime of the stream)",
+        "dict rows are compared with sorted keys only; -0.0 == 0.0 counts as equal; where the first row shows no type at an inference position the case is outside H_firstRowTyped",
+        "engine: a struct is CAST field by field, by name (fields the target type does not name are dropped) — harness-side rule `project`, validated on every H_firstRowTyped case",
+        "engine: a DECIMAL literal is converted to DOUBLE exactly when its digits fit 2^53 (H_floatDigits), within 4 units in the last place otherwise — validated on every float cell",
         "PySpark's behaviour for the schema-form matrix, dict rows by key, Row/dict renaming by a names list, DDL strings with commas/colons, lit(inf), NUL in strings was confirmed on live PySpark 3.5.9 during construction",
     ]
 
